@@ -109,6 +109,7 @@ type FnTrans struct {
 	assumpTerms []string
 	knownRefs map[string]bool
 	strPairs map[string]bool
+	f64bitsCache map[string]string
 	subRefSeen map[string]bool
 	subRefTerms []string
 	privateAlloc map[ssa.Value]bool
@@ -645,6 +646,9 @@ func (t *FnTrans) zeroVal(ty types.Type) Val {
 		return v
 	case *types.Array:
 		es := t.mode.scalarSort(u.Elem())
+		if es == "Iface" || es == "Str" {
+			return Val{K: VArray, T: ty, S: t.declare(t.fresh("zeroarr"), arraySort(t.mode.idxSort(), es))}
+		}
 		if es != "" {
 			z := t.zeroVal(u.Elem())
 			return Val{K: VArray, T: ty, S: sx("(as const "+arraySort(t.mode.idxSort(), es)+")", z.S)}
@@ -1671,6 +1675,8 @@ func (t *FnTrans) modifiesComps(callee *ssa.Function, con *Contract) ([]string, 
 			return nil, false
 		case item == "allbytes":
 			res = append(res, "B."+t.sortKey(types.Typ[types.Uint8]))
+		case strings.HasPrefix(item, "ghostseq("):
+			res = append(res, "GA."+strings.Trim(strings.TrimSuffix(strings.TrimPrefix(item, "ghostseq("), ")"), "\" "))
 		case strings.HasPrefix(item, "ghostat("):
 			i := strings.Index(item, "\"")
 			j := strings.LastIndex(item, "\"")
